@@ -846,15 +846,29 @@ impl Net {
 				_ => None,
 			}
 		};
+		// the same restriction given by payment index instead of HTLC position
+		let pay_vouts = |s: &Net, sel: &Value| -> Option<Vec<u32>> {
+			let (o, k) = s.confirmed_commit?;
+			let a = sel.as_array()?;
+			let mut res = Vec::new();
+			for x in a.iter().filter_map(|x| x.as_u64()) {
+				if let Some(p) = s.pays.get(x as usize) {
+					for h in s.commits[o][k].ct.nondust_htlcs().iter() {
+						if h.payment_hash == p.hash { if let Some(v) = h.transaction_output_index { res.push(v); } }
+					}
+				}
+			}
+			Some(res)
+		};
 		match name {
 			"mine" => {
 				let n = op["n"].as_u64().unwrap_or(1);
-				let av = htlc_vouts(self, &op["agent_htlcs"]);
+				let av = if op["agent_pays"].is_array() { pay_vouts(self, &op["agent_pays"]) } else { htlc_vouts(self, &op["agent_htlcs"]) };
 				for _ in 0..n { self.mine_block(&who, newest, av.as_ref()); }
 			},
 			"to_expiry" => {
 				// advance until the chosen HTLC of the confirmed commitment has expired (+ off)
-				let av = htlc_vouts(self, &op["agent_htlcs"]);
+				let av = if op["agent_pays"].is_array() { pay_vouts(self, &op["agent_pays"]) } else { htlc_vouts(self, &op["agent_htlcs"]) };
 				let target = self.confirmed_commit.and_then(|(o, k)| {
 					let hs = self.commits[o][k].ct.nondust_htlcs();
 					if hs.is_empty() { None } else { Some(hs[op["htlc"].as_u64().unwrap_or(0) as usize % hs.len()].cltv_expiry) }
